@@ -93,17 +93,76 @@ func (e *Engine) background(d *decls) []*Term {
 			out = append(out, Forall([]*Term{v}, Implies(Neq(v, IntLit(0)), Neq(App(fname, IntS, v), IntLit(0)))))
 		}
 	}
+	if _, ok := d.funcs["ValidPath"]; ok {
+		lits := map[string]bool{"": true, ".": true}
+		for l := range d.strLits {
+			lits[l] = true
+		}
+		for _, l := range sortedKeys(lits) {
+			f := App("ValidPath", BoolS, StrLit(l))
+			if goValidPath(l) {
+				out = append(out, f)
+			} else {
+				out = append(out, Not(f))
+			}
+		}
+	}
 	out = append(out, e.lemmaInstances(d)...)
 	return out
 }
 
-func (e *Engine) buildScript(o *Obligation, forCVC5 bool) (string, *decls) {
+// coverPC weakens a cover query: quantified conjuncts are dropped (model finding under
+// quantifiers is what makes these queries slow; the weakening is noted in the evidence).
+func coverPC(pc []*Term) []*Term {
+	var out []*Term
+	for _, p := range pc {
+		d := newDecls()
+		d.visit(p)
+		if d.hasQuant {
+			continue
+		}
+		out = append(out, p)
+	}
+	return out
+}
+
+func (e *Engine) buildScript(o *Obligation, abstract bool) (string, *decls) {
 	d := newDecls()
-	for _, p := range o.PC {
+	pc := o.PC
+	if o.Cover {
+		pc = coverPC(pc)
+	}
+	for _, p := range pc {
 		d.visit(p)
 	}
 	d.visit(o.Goal)
 	bg := e.background(d)
+	goal := o.Goal
+	if abstract {
+		ab := &abstractor{memo: map[*Term]*Term{}, lits: map[string]*Term{}}
+		npc := make([]*Term, len(pc))
+		for i, p := range pc {
+			npc[i] = ab.tr(p)
+		}
+		pc = npc
+		goal = ab.tr(goal)
+		nbg := make([]*Term, len(bg))
+		for i, b := range bg {
+			nbg[i] = ab.tr(b)
+		}
+		d = newDecls()
+		for _, p := range pc {
+			d.visit(p)
+		}
+		d.visit(goal)
+		for _, b := range nbg {
+			d.visit(b)
+		}
+		bg = append(nbg, ab.axioms(d)...)
+	}
+	o2 := *o
+	o2.PC, o2.Goal = pc, goal
+	o = &o2
 	for _, b := range bg {
 		d.visit(b)
 	}
@@ -207,16 +266,34 @@ func (e *Engine) solve(o *Obligation, outDir string, idx int, timeoutS int, both
 		out    string
 		secs   float64
 	}
-	ch := make(chan ans, len(use))
+	nproc := len(use)
+	ch := make(chan ans, len(use)+2)
 	for _, sp := range use {
 		go func(sp solverSpec) {
 			s, out, secs := runSolver(ctx, sp, res.File, timeoutS)
 			ch <- ans{sp, s, out, secs}
 		}(sp)
 	}
+	if d.hasStr && !o.Cover {
+		// the string-abstracted query: only `unsat` is meaningful
+		ascript, _ := e.buildScript(o, true)
+		afile := strings.TrimSuffix(res.File, ".smt2") + ".abs.smt2"
+		_ = os.WriteFile(afile, []byte("; string-abstracted: "+o.Name()+"\n"+ascript), 0o644)
+		for _, sp := range solvers[:2] {
+			nproc++
+			go func(sp solverSpec) {
+				s, out, secs := runSolver(ctx, sp, afile, timeoutS)
+				if s == "sat" {
+					s = "unknown"
+				}
+				sp.name += "+strabs"
+				ch <- ans{sp, s, out, secs}
+			}(sp)
+		}
+	}
 	var details []string
 	final := "unknown"
-	for range use {
+	for i := 0; i < nproc; i++ {
 		a := <-ch
 		details = append(details, fmt.Sprintf("%s: %s (%.2fs)", a.sp.name, a.status, a.secs))
 		if a.status == "sat" || a.status == "unsat" {
